@@ -1,4 +1,5 @@
 import MlModel.Lemmas.AggRollingHeap
+import MlModel.Lemmas.AggRollingHeapRefine
 /-!
 # C11 — "merge only ever modifies its receiver", rolling family, over the cell heap
 
@@ -86,6 +87,20 @@ theorem C11_rolling_reservoir_reading_unchanged (α : Type) (maxSize : Nat) (see
   obtain ⟨_, h2⟩ := C11_rolling_frame_reservoir α maxSize seed ops op j oj hj hr
   simp only [fssAbs, FSS.mk.injEq, true_and, and_true]
   exact h2 oj.ref (by simp [fssClass, Footprint.refs])
+
+/-- the heap model and the pure model of `UnboundedSampler.merge` agree: under the separation that
+`C11_rolling_separation_sampler` maintains (receiver's lists pairwise distinct and distinct from
+the operand's), `usMerge` computes `US.merge` on what the two accumulators read.  (Stated for a
+receiver and an operand that both hold columns; the other cases return/adopt fresh lists.) -/
+theorem C11_rolling_sampler_heap_refines (α : Type) (h : Heap (List α)) (s o : USObj)
+    (hs : s.refs ≠ []) (ho : o.refs ≠ []) (hlen : s.refs.length = o.refs.length)
+    (hvs : ∀ r ∈ s.refs, r < h.size) (hnd : s.refs.Nodup) (hdisj : ∀ r ∈ s.refs, r ∉ o.refs) :
+    US.merge true (usAbs h s) (usAbs h o) = .ok (usAbs (usMerge h s o).1 (usMerge h s o).2) :=
+  usMerge_refines h s o hs ho hlen hvs hnd hdisj
+
+/-- (non-vacuity) a concrete heap satisfying the hypotheses -/
+example : US.merge true (usAbs (⟨[[1], [2]]⟩ : Heap (List Nat)) ⟨[0], false⟩) (usAbs ⟨[[1], [2]]⟩ ⟨[1], false⟩)
+    = .ok ⟨[[1, 2]], false⟩ := by rfl
 
 /-! ## F3: the original `_merge_reservoirs` popped from the operand's own list -/
 
